@@ -18,6 +18,7 @@ preferred-engine options on the last call):
 from __future__ import annotations
 
 import json
+import os
 import time
 from collections import Counter
 
@@ -133,7 +134,7 @@ def brief(st):
     return {k: st[k] for k in ("src", "l1", "t2", "hist")}
 
 
-def replay_state(st: dict, out: dict, want_event: bool, want_rejects: bool) -> None:
+def replay_state(st: dict, out: dict, want_event: bool, want_rejects: bool, want_rows: bool = True) -> None:
     case = brief(st)
     viol = out["violations"]
     cnt = out["counters"]
@@ -175,6 +176,10 @@ def replay_state(st: dict, out: dict, want_event: bool, want_rejects: bool) -> N
                 V(["C15"], "materializing a leaf / an already materialized relation added a materialization")
         old = mats_of(before)
         new = mats_of(rel)
+        gone = sorted(set(old) - set(new))
+        if gone:
+            V(["C15"], f"a factory call made the locked materialization(s) {gone} of its input disappear from the result "
+                       "(a simplification crossed a locked node)", call=last)
         for name, node in old.items():
             if name in new and new[name] is not node:
                 V(["C15"], f"locked materialization {name!r} of the input tree reappears as a different object (rewritten upstream)",
@@ -202,7 +207,10 @@ def replay_state(st: dict, out: dict, want_event: bool, want_rejects: bool) -> N
             out["drift"].append({"what": "tree shape differs from the model", "case": case,
                                  "real": canon_tree(project.strip_sel_target(real_tree)),
                                  "model": canon_tree(project.strip_sel_target(st["tree"]))})
-    # ---- content through the real Processor
+    # ---- content through the real Processor (skipped when the check's property is not about content)
+    if not want_rows:
+        _rejects_and_event(st, out, w, rel, real_tree, same_shape, want_event, want_rejects, case, V, cnt)
+        return
     proc = make_processor(w.conn, w.eng["sql"])
     fp_before = fingerprint(rel)
     try:
@@ -245,6 +253,10 @@ def replay_state(st: dict, out: dict, want_event: bool, want_rejects: bool) -> N
         proc.cleanup()
     if fingerprint(rel)[:5] != fp_before[:5]:
         V(["C07", "C09"], "process() changed the structure/metadata of the tree passed in")
+    _rejects_and_event(st, out, w, rel, real_tree, same_shape, want_event, want_rejects, case, V, cnt)
+
+
+def _rejects_and_event(st, out, w, rel, real_tree, same_shape, want_event, want_rejects, case, V, cnt):
     # ---- refused requests
     for rj in (st["rejects"] if want_rejects else ()):
         c = rj["call"]
@@ -352,7 +364,8 @@ def worker(lines, ctx):
         out["n"] += 1
         if st["fired"]:
             out["nontrivial"] += 1
-        replay_state(st, out, want_event=(i % every == 0), want_rejects=(i % ctx.get("rejects_every", 1) == 0))
+        replay_state(st, out, want_event=(i % every == 0), want_rejects=(i % ctx.get("rejects_every", 1) == 0),
+                     want_rows=ctx.get("want_rows", True))
         if len(out["violations"]) > 40:
             out["violations"] = out["violations"][:40]
         if len(out["samples"]) < 1 and st["fired"]:
@@ -362,18 +375,18 @@ def worker(lines, ctx):
 
 CLAUSE_PROPS = {"wf": ["C14", "C03"], "den": ["C03", "C15"], "denbag": ["C03", "C15"], "denlist": ["C03", "C15"], "meta": ["C06"], "coh": ["C17"]}
 CONFIGS = {
-    "quick": [("MultiQuick.cfg", 3)],
+    "quick": [("MultiLite.cfg", 3), ("MultiQuick.cfg", 4)],
     "thorough": [("MultiQuick.cfg", 1), ("MultiFull.cfg", 6), ("MultiDeep.cfg", 6)],
 }
 
 
 def run(tier: str, seed: int) -> list[Part]:
     parts = []
-    import os
-
     plan = CONFIGS[tier]
-    if tier == "quick" and os.environ.get("VERIF_FOCUS", "") not in ("", "C03", "C15"):
+    if tier == "quick" and os.environ.get("VERIF_FOCUS", "") not in ("", "C03", "C15", "C07"):
         # for the properties this family serves only in second place a shallower configuration is replayed
+        plan = [("MultiLite.cfg", 3)]
+    if tier == "quick" and os.environ.get("VERIF_FOCUS", "") == "C07":
         plan = [("MultiLite.cfg", 3)]
     for cfg, every in plan:
         t0 = time.time()
@@ -382,7 +395,13 @@ def run(tier: str, seed: int) -> list[Part]:
             raise MachineryError(f"model-level violation of {res.violated} in {cfg}:\n{res.error_text}")
         part = Part(name=f"multiengine:{cfg}", cfg=cfg, states=res.distinct, transitions=res.generated)
         t1 = time.time()
-        outs = parallel_replay(worker, res.raw_lines(), ctx={"event_every": every, "rejects_every": 3 if tier == "quick" else 2}, chunk=150)
+        focus = os.environ.get("VERIF_FOCUS", "")
+        ctx = {"event_every": every, "rejects_every": 3 if tier == "quick" else 2,
+               # processing + executing every state is what C03 / C07 need; the structural properties do not
+               "want_rows": not (tier == "quick" and focus in ("C15", "C14", "C06", "C20"))}
+        if tier == "quick" and focus in ("C15",):
+            ctx["rejects_every"] = 10**9
+        outs = parallel_replay(worker, res.raw_lines(), ctx=ctx, chunk=150)
         merge_worker_outputs(part, outs)
         t2 = time.time()
         events = [ev for o in outs for ev in o.get("events", [])]
